@@ -51,6 +51,7 @@ func errEdges(fn *ssa.Function, call *ssa.Call, idx int, isNil bool) []Edge {
 // escapesWithout: starting at block `from`, is there a path to a function exit
 // (Return) that passes no block containing an instruction satisfying pass?
 func escapesWithout(from *ssa.BasicBlock, pass func(ssa.Instruction) bool) []*ssa.BasicBlock {
+	pass = liftPass(pass, 3)
 	blocked := func(b *ssa.BasicBlock) bool {
 		for _, in := range b.Instrs {
 			if pass(in) {
